@@ -9,6 +9,7 @@ pub mod c08;
 pub mod c09;
 pub mod c11;
 pub mod c13;
+pub mod c14;
 pub mod c16;
 pub mod c17;
 pub mod c19;
@@ -32,6 +33,7 @@ pub fn dispatch(id: &str, tier: Tier, seed: u64) -> Option<i32> {
         "C12" => c09::run(c09::Mode::C12, tier, seed),
         "C11" => c11::run(tier, seed),
         "C13" => c13::run(tier, seed),
+        "C14" => c14::run(tier, seed),
         "C19" => c19::run(tier, seed),
         "C16" => c16::run(tier, seed),
         "C17" => c17::run(tier, seed),
